@@ -10,6 +10,9 @@ bare `cast()`, `setOriginPoint` without `setEndPoint`, bare `next` calls between
   bit-identical arithmetic) are compared exactly — that is where a changed tie-break shows.
 * oracle(): the property on the implementation's outputs — length, start cell, face-adjacency, bounds,
   eps-inflated segment/cell intersection of every visited cell, end-cell rule, history independence.
+  Failures caused by the recorded defect "ill-conditioned-axis" (see `_ill_conditioned_axis`) get that kind and the
+  fields `dir_ratio`, `axis`, `sub`, `T`, `dim`, `coord_over_r`; two fixed witness cases and a random `straddle` ray
+  kind make every run visit that class.
 """
 import math
 import vlib
@@ -30,7 +33,12 @@ ASSUMPTIONS = ['theorems are over the reals (and RN for the coincident case) wit
                'rounding distance of a cell border) is covered by the correspondence check and by the probe with an explicit '
                'eps = (L1+8)*machine_eps*range + 8*machine_eps*max|coordinate|',
                'the probe takes the cell geometry from the implementation\'s own centre table (first centre per axis), i.e. it '
-               'checks the rays against the grid as built; that the grid covers the requested extent is C13']
+               'checks the rays against the grid as built; that the grid covers the requested extent is C13',
+               'recorded finding `ill-conditioned-axis`: on a ray with a direction component of a few ulp that straddles (or all '
+               'but touches) a cell border on that axis, the rounding of the first crossing parameter is amplified by '
+               '1/|direction component| and the real code overshoots by a cell (also out of the grid).  Such failures are reported '
+               'under that kind only when the offending cell lies within eps + amplified error of the segment; the theorems (exact '
+               'arithmetic) exclude the behaviour, the Lean Float model reproduces it bit for bit']
 EXPLANATION = ('proof over the reals of length / start / face-adjacency / crossing / bounds / end-cell / history independence on '
                'the Lean model + differential correspondence on cast sequences (float and double, 2D and 3D) + geometric probe')
 
@@ -323,8 +331,26 @@ def _exact_case(rng, T, dim, idx):
     return {'name': 'exact-%s%d-%d' % (T, dim, idx), 'lines': lines, 'meta': {'exact': True, 'T': T, 'dim': dim}}
 
 
+def _witness_cases():
+    """fixed inputs of the recorded finding `ill-conditioned-axis` (both end in a cell outside the grid on the
+    unrepaired code), so that every run exercises that class deterministically"""
+    return [
+        {'name': 'witness-ill-conditioned-d2', 'meta': {'T': 'd', 'dim': 2, 'witness': True}, 'lines': [
+            # extent [-3.2844032589065977, 3.2844032589065977]^2, r = 0.6568806517813195 (11 x 11 cells);
+            # origin (-1.6422016294532988, 2.8029582160404836), end (-1.6422016294532986, -3.2844032589065977):
+            # x differs by 1 ulp across the border between cells 2 and 3 -> ... 2:0 2:(0-1)
+            'ray.new d 2 d13837950274301266314 d13837950274301266314 d4614578237446490506 d4614578237446490506 d4604091874462454894',
+            'ray.origin d13833446674673895818 d4613494119588664904',
+            'ray.castto d13833446674673895817 d13837950274301266314']},
+        {'name': 'witness-ill-conditioned-f3', 'meta': {'T': 'f', 'dim': 3, 'witness': True}, 'lines': [
+            # extent [-1.5134206, 1.5134206]^3, r = 0.33631572 (9^3 cells); z differs by 3 ulp across a border -> x index 0-1
+            'ray.new f 3 s3215975556 s3215975556 s3215975556 s1068491908 s1068491908 s1068491908 s1051714692',
+            'ray.castoe s1068491908 s3187951470 s1057221472 s3215975556 s1068491908 s1057221475']},
+    ]
+
+
 def gen_cases(rng, tier):
-    cases = []
+    cases = _witness_cases()
     n_cases = 1200 if tier == 'quick' else 12000
     n_exact = 250 if tier == 'quick' else 2500
     for ci in range(n_cases):
